@@ -21,7 +21,7 @@ CFG = {
                 "setcached": 0.9, "setformula": 0.5, "setref": 0.5, "delref": 0.15},
     "compare": ["graph", "refgraph", "values"],
     "maxdepths": [None, None, 6, 10],
-    "raise_p": 0.07, "none_p": 0.04, "catch_all_p": 0.15, "space_p": 0.3,
+    "raise_p": 0.07, "none_p": 0.04, "catch_all_p": 0.15, "space_p": 0.3, "same_p": 0.3,
     "rule": "random programs (cached and uncached cells, recursion, references by attribute path, failing and "
             "handled callees) with histories of evaluations, re-evaluations (cache hits), value edits, failed "
             "evaluations, cache-flag flips (both directions), formula edits and reference edits (change, create, "
@@ -159,6 +159,23 @@ def _input_answers(c, cid, key, out, stats, hist):
                 return
             if what == "preds" and got:
                 out.fail("preds() of the input element %s reports %d nodes" % (node_s(cid, key), len(got)), hist)
+            if what == "precedents":
+                # an assigned value was calculated from nothing: no cells, and no reference but those the formula text
+                # names (listed for every element of the cells, read or not); a reference recorded from an EXECUTION
+                # (a read through an attribute path) belongs to the calculation the assignment replaced
+                named = {_ref_id(p) for p in c._impl.get_valuerefs()}
+                extra = sorted(_ref_id(p) for p in got if type(p).__name__ == "ReferenceNode" and _ref_id(p) not in named)
+                other = [p for p in got if type(p).__name__ != "ReferenceNode"]
+                stats["oracle_input_precedents"] += 1
+                if extra or other:
+                    out.fail("precedents() of the input element %s lists %s, recorded from a calculation the assignment "
+                             "replaced" % (node_s(cid, key), ", ".join(["%s of %s" % x for x in extra] + [repr(p) for p in other])),
+                             hist)
+
+
+def _ref_id(p):
+    ri = p._impl
+    return (ri[0].name, ri[0].parent.get_fullname() if hasattr(ri[0].parent, "get_fullname") else repr(ri[0].parent))
 
 
 def _check_precedents(impl, rec, case, cid, c, key, shadowed, out, stats, hist):
